@@ -456,3 +456,8 @@ Definition ilegal (s : istate) (e : ievent) : Prop :=
 Inductive ireachable : istate -> Prop :=
 | ireach_init : ireachable iinit
 | ireach_step s e ch s' o : ireachable s -> ilegal s e -> istep s e ch = IDone (s', o) -> ireachable s'.
+
+(* the translator pinned the text of the 18 functions of broker/src/introspection_database.rs and of the
+   4 cfg(feature = "introspection") handlers of broker/src/broker.rs this file transcribes *)
+Example introdb_pinned : INTRODB_PINNED_FNS = 22.
+Proof. reflexivity. Qed.
